@@ -834,14 +834,17 @@ Lemma step_app_read : forall c m sid n eof, R c m -> step_ok c m (EAppRead sid n
 Proof.
   intros c m sid n eof HR. unfold step_ok. cbn [conn_step].
   destruct (find_cs sid (cc_streams c)) as [s|] eqn:Ef; [|apply noop_ok; exact HR].
-  destruct ((1 <=? n) && (n <=? cs_buf s) && negb (cs_app_closed s) && (negb eof || cs_peer_ended s || cs_peer_reset s));
+  destruct ((1 <=? n) && (n <=? cs_buf s) && negb (cs_app_closed s) && negb (cs_read_failed s));
     [|apply noop_ok; exact HR].
   destruct (in_add_ret (cc_in c) n) as [rc f2].
   destruct (if eof then (0, cs_in s) else in_add_ret (cs_in s) n) as [rs g2].
   cbn [fst snd].
-  assert (HR' : R (set_cstreams (set_cin c f2) (upd_cs sid (fun s0 => cs_set_recv s0 g2 (cs_buf s - n)) (cc_streams c))) m).
-  { rewrite upd_cs_map. apply R_map_recv; [exact HR|]. intros s0. destruct (cs_id s0 =? sid); [apply send_same_recv|].
-    unfold send_same. repeat split. }
+  assert (HR' : R (set_cstreams (set_cin c f2)
+                     (upd_cs sid (fun s0 => let s1 := cs_set_recv s0 g2 (cs_buf s - n) in
+                                            if eof then cs_set_read_failed s1 else s1) (cc_streams c))) m).
+  { rewrite upd_cs_map. apply R_map_recv; [exact HR|]. intros s0. cbv zeta.
+    destruct (cs_id s0 =? sid); [|unfold send_same; repeat split].
+    destruct eof; unfold send_same; cbn; repeat split. }
   destruct (wu2_ok _ m 0 rc sid rs HR') as [E HR2].
   eexists. split; [exact E|exact HR2].
 Qed.
